@@ -430,12 +430,21 @@ type c02MonSpec struct {
 	id     int
 	kind   int
 	keep   bool
-	flt    int // 0 none, 1 jqFilter, 2 FilterFunc
+	flt    int      // 0 none, 1 jqFilter, 2 FilterFunc
+	prog   *c02Prog // the jqFilter program (nil = the legacy one; FilterFunc always computes the legacy one)
 	names  []int
 	nss    []int
 	nsSel  bool
 	lblSel bool
 	excl   int // 0 = none
+}
+
+// theProg: the program whose result the binding's filter produces.
+func (s c02MonSpec) theProg() *c02Prog {
+	if s.flt == 1 && s.prog != nil {
+		return s.prog
+	}
+	return c02LegacyProg()
 }
 
 func (s c02MonSpec) line() string {
@@ -453,8 +462,12 @@ func (s c02MonSpec) line() string {
 	if s.flt > 0 {
 		f = 1
 	}
-	return fmt.Sprintf("mon %d kind=%d keep=%d flt=%d names=%s nss=%s nssel=%d lsel=%d excl=%s",
-		s.id, s.kind, b(s.keep), f, joinInts(s.names), joinInts(s.nss), b(s.nsSel), b(s.lblSel), excl)
+	prog := ""
+	if f == 1 {
+		prog = " prog=" + s.theProg().ast()
+	}
+	return fmt.Sprintf("mon %d kind=%d keep=%d flt=%d names=%s nss=%s nssel=%d lsel=%d excl=%s%s",
+		s.id, s.kind, b(s.keep), f, joinInts(s.names), joinInts(s.nss), b(s.nsSel), b(s.lblSel), excl, prog)
 }
 
 const c02JqFilter = `{"a": .data.a}`
@@ -470,7 +483,7 @@ func (s c02MonSpec) config(cl *c02Cluster, monitorID string) *kem.MonitorConfig 
 	mc.Mode = kemtypes.ModeIncremental
 	switch s.flt {
 	case 1:
-		mc.JqFilter = c02JqFilter
+		mc.JqFilter = s.theProg().text()
 	case 2:
 		mc.FilterFunc = func(u *unstructured.Unstructured) (interface{}, error) {
 			a, _, _ := unstructured.NestedString(u.Object, "data", "a")
@@ -603,8 +616,8 @@ func c02RenderSnap(snap []kemtypes.ObjectAndFilterResult, hasFilter bool) string
 		}
 		fr := "0"
 		if hasFilter {
-			if a, ok := c02FilterA(e.FilterResult); ok {
-				fr = strconv.Itoa(a)
+			if t, ok := c02FilterText(e.FilterResult); ok {
+				fr = c02EncText(t)
 			} else {
 				fr = "nofr"
 			}
@@ -641,16 +654,17 @@ func (cl *c02Cluster) wantSnap(s c02MonSpec) string {
 		return es[i].k.name < es[j].k.name
 	})
 	var parts []string
+	prog := s.theProg()
 	for _, e := range es {
 		obj := "-"
 		if s.keep {
 			obj = strconv.Itoa(e.v.content())
 		}
-		fr := 0
+		fr := "0"
 		if s.flt > 0 {
-			fr = e.v.a
+			fr = c02EncText(prog.want(e.v))
 		}
-		parts = append(parts, fmt.Sprintf("%d.%d:%s:%d", e.k.ns, e.k.name, obj, fr))
+		parts = append(parts, fmt.Sprintf("%d.%d:%s:%s", e.k.ns, e.k.name, obj, fr))
 	}
 	return joinStrs(parts)
 }
